@@ -14,6 +14,7 @@ import (
 	"encoding/json"
 	"errors"
 	"fmt"
+	"runtime"
 	"sort"
 	"strings"
 	"sync"
@@ -106,8 +107,9 @@ func hosts(tier string, s, r int) [][]string {
 }
 
 type c09Case struct {
-	Topo   topo           `json:"topo"`
-	Assign map[string]int `json:"assign"`
+	Topo    topo           `json:"topo"`
+	Assign  map[string]int `json:"assign"`
+	Overlap bool           `json:"overlap,omitempty"` // the overlapping-bulks scenario (c09_overlap_test.go)
 }
 
 var breakerCfg = circuitbreaker.Config{Timeout: time.Minute, MaxConcurrent: 1000, NumBuckets: 10, BucketWidth: time.Second, RequestVolumeThreshold: 1 << 40, ErrorThresholdPercentage: 100, SleepWindow: time.Hour}
@@ -206,7 +208,7 @@ func c09Check(r *vlib.Run, tp topo, assign map[string]int) {
 		}
 		log = append(log, fmt.Sprintf("%s#%d=%s", c.Host, c.N, c.Outcome))
 		if c.Payload != wantP {
-			r.Violation(fmt.Sprintf("%s: a store received a payload different from the request", tp), c09Case{tp, assign}, strings.Join(log, " "))
+			r.Violation(fmt.Sprintf("%s: a store received a payload different from the request", tp), c09Case{Topo: tp, Assign: assign}, strings.Join(log, " "))
 		}
 		if c.Outcome == "ok" {
 			okBy[c.Host] = true
@@ -231,7 +233,7 @@ func c09Check(r *vlib.Run, tp topo, assign map[string]int) {
 		}
 		return false
 	}
-	cse := c09Case{tp, assign}
+	cse := c09Case{Topo: tp, Assign: assign}
 	detail := fmt.Sprintf("assignment %v\ncalls %v\nreturned err=%v", assign, log, err)
 	if err == nil {
 		if !full("hot", tp.HotShards, tp.HotReplicas) {
@@ -293,7 +295,8 @@ type c09Plan struct {
 }
 
 type c09Job struct {
-	Idx int `json:"idx"`
+	Idx     int  `json:"idx"`
+	Overlap bool `json:"overlap,omitempty"`
 }
 
 func c09Plans(thorough bool) ([]c09Plan, int) {
@@ -327,6 +330,10 @@ func c09Handle(job json.RawMessage) any {
 		panic(err)
 	}
 	r := vlib.NewSubRun("C09")
+	if j.Overlap {
+		c09HandleOverlap(r, j.Idx)
+		return r.Export()
+	}
 	plans, _ := c09Plans(r.Thorough())
 	p := plans[j.Idx]
 	tp := p.tp
@@ -351,6 +358,14 @@ func TestVerifC09(t *testing.T) {
 	r := vlib.NewRun("C09")
 	var rc c09Case
 	if r.LoadReplay(&rc) {
+		if rc.Overlap {
+			old := runtime.GOMAXPROCS(1)
+			vdec.Run(rc.Assign, runC09Overlap(rc.Topo))
+			runtime.GOMAXPROCS(old)
+			c09OverlapCheck(r, rc.Topo, rc.Assign)
+			r.Finish(t, "fault_enumeration", "replay", nil, nil)
+			return
+		}
 		vdec.Run(rc.Assign, runC09(r, rc.Topo, rc.Assign))
 		c09Check(r, rc.Topo, rc.Assign)
 		r.Finish(t, "fault_enumeration", "replay", nil, nil)
@@ -360,27 +375,35 @@ func TestVerifC09(t *testing.T) {
 	// the explorer's state is process-global: the plans are sharded over worker subprocesses
 	pool := vlib.NewPool("c09", vlib.Workers())
 	defer pool.Close()
-	vlib.Parallel(len(plans), vlib.Workers(), func(i int) {
+	nOv := len(c09OverlapTopos)
+	vlib.Parallel(len(plans)+nOv, vlib.Workers(), func(i int) {
 		if r.Expired() {
 			return
 		}
+		job, tp := c09Job{Idx: i}, topo{}
+		if i < nOv { // the overlapping-bulks scenario first
+			job, tp = c09Job{Idx: i, Overlap: true}, c09OverlapTopos[i]
+		} else {
+			job.Idx = i - nOv
+			tp = plans[i-nOv].tp
+		}
 		var exp vlib.Export
-		jr, err := pool.Do(c09Job{Idx: i}, &exp, 40*time.Minute)
+		jr, err := pool.Do(job, &exp, 40*time.Minute)
 		switch {
 		case err != nil:
 			panic(err)
 		case jr.Died:
-			r.Violation(fmt.Sprintf("bulk client process died %s", plans[i].tp), c09Case{Topo: plans[i].tp}, jr.Stderr)
+			r.Violation(fmt.Sprintf("bulk client process died %s overlap=%v", tp, job.Overlap), c09Case{Topo: tp, Overlap: job.Overlap}, jr.Stderr)
 		case jr.Hung:
-			r.Cap(fmt.Sprintf("%s did not finish within the horizon", plans[i].tp))
+			r.Cap(fmt.Sprintf("%s overlap=%v did not finish within the horizon", tp, job.Overlap))
 		default:
 			r.Merge(exp)
 		}
 	})
-	r.Sample(c09Case{topo{2, 2, 1, 1}, map[string]int{"bulk/hot-s0-r1/#1": 1, "breaker/bulk_hot/s1/attempt0": 1}})
+	r.Sample(c09Case{Topo: topo{2, 2, 1, 1}, Assign: map[string]int{"bulk/hot-s0-r1/#1": 1, "breaker/bulk_hot/s1/attempt0": 1}})
 	ev := r.Get("evaluations")
 	r.Finish(t, "fault_enumeration",
-		fmt.Sprintf("topologies hot {1..3}x{1..3} x long-term {none,1x1,1x2,2x1,2x2}; environment events: every store call (ok / error / call deadline / request context cancelled during the call), every shard circuit breaker before every attempt (closed / open), every shard shuffle (all permutations); all assignments for topologies with <=2 hot replicas in total and <=1 long-term replica, at most %d deviations from the default answers beyond (one less for the largest); oracle on the recorded call log: acknowledged => a hot shard all of whose replicas have a successful call with exactly the payload, and the same for the long-term tier; no replica called more than BulkMaxTries times; all-default => acknowledged; after every explored bulk a second bulk is sent through the same client to healthy stores and must be acknowledged with a full replica set holding its own payload. distinct_nontrivial = distinct assignments with at least one deviation", bigBound),
+		fmt.Sprintf("topologies hot {1..3}x{1..3} x long-term {none,1x1,1x2,2x1,2x2}; environment events: every store call (ok / error / call deadline / request context cancelled during the call), every shard circuit breaker before every attempt (closed / open), every shard shuffle (all permutations); all assignments for topologies with <=2 hot replicas in total and <=1 long-term replica, at most %d deviations from the default answers beyond (one less for the largest); oracle on the recorded call log: acknowledged => a hot shard all of whose replicas have a successful call with exactly the payload, and the same for the long-term tier; no replica called more than BulkMaxTries times; all-default => acknowledged; after every explored bulk a second bulk is sent through the same client to healthy stores and must be acknowledged with a full replica set holding its own payload. Overlapping bulks: the real bulk.Ingestor on the real client, topologies 1x2, 2x2, 1x3, 1x2+1x1, 1x1+1x2, every store call of bulk A ok / error and, at every such call, optionally a second bulk B running to completion through the same ingestor (once), at most "+fmt.Sprint(c09OverlapBound(r.Thorough()))+" deviations; acknowledged => a full replica set accepted exactly the bytes first sent for that bulk (A and B). distinct_nontrivial = distinct assignments with at least one deviation", bigBound),
 		map[string]any{
 			"states":                        r.DistinctCount("outcomes"),
 			"transitions":                   ev,
